@@ -195,6 +195,10 @@ class Model:
             # wrapped __setattr__ (a special method of the same object), whose invariants surround it; the setter is a
             # nested operation on the object (C10: unchecked), cf. the same rule in the C03 oracle
             return self.invs_on(cls, "SETATTR")
+        if m["kind"] == "pdel" and not is_public(m["name"]):
+            # ``del instance._p`` runs inside ``__delattr__`` - a special method like any other (the copy of object's default which
+            # the class holds is wrapped), whatever the name of the attribute; the protected deleter itself is not wrapped
+            return self.invs_on(cls, "CALL")
         return self.invs_on(cls, "CALL") if self.wrapped_for_invariants(m) else []
 
     # -- definition-time verdicts ---------------------------------------------------------
